@@ -17,6 +17,20 @@ class Analysis:
         self.te = TypeEngine(self.p)
         self.it = Interp(self.p, self.te, asserts=asserts)
         self.asserts = asserts
+        #: interpreter for *rule paths*: private helpers of the same object/module are
+        #: inlined transparently, so that extracting or inlining a helper changes nothing
+        self.rit = Interp(self.p, self.te, asserts=asserts)
+        self.rit.helpers = True
+        self._share(self.rit)
+        self._rule_paths = {}
+
+    def _share(self, other: Interp):
+        other._summaries = self.it._summaries
+        other._pure = self.it._pure
+        other._busy = self.it._busy
+        other.stats = self.it.stats
+        other.unresolved = self.it.unresolved
+        other.user_sites = self.it.user_sites
 
     # -- anchors --------------------------------------------------------------
     def cls(self, qn: str) -> ClassInfo:
@@ -41,6 +55,21 @@ class Analysis:
         return Callee(fn, owner.qn if owner else None)
 
     def paths(self, callee: Callee, which: str = None) -> List[Path]:
+        """rule paths of a function (helpers inlined transparently), memoised"""
+        key = callee.key() + (which,)
+        found = self._rule_paths.get(key)
+        if found is None:
+            it = self.rit
+            assume = it.assume_for(callee, which) if which else None
+            hole = it._default_hole_ev if callee.fn.kind == 'ctxgen' else None
+            found = it.paths_of(callee, assume, hole, which)
+            if len(found) > 20000:
+                raise AnalysisError('too many paths in %s' % callee)
+            self._rule_paths[key] = found
+        return found
+
+    def summary_paths(self, callee: Callee, which: str = None) -> List[Path]:
+        """inline-free paths as used for callee summaries"""
         summ = self.it.summary(callee, which)
         if summ.paths is None:
             raise AnalysisError('too many paths in %s' % callee)
@@ -50,19 +79,11 @@ class Analysis:
             -> List[Path]:
         """paths with callees inlined (``inline(callee, depth) -> bool``) up to ``depth``"""
         it = Interp(self.p, self.te, asserts=self.asserts, inline=inline, max_depth=depth)
-        # share summaries (they are inline-free)
-        it._summaries = self.it._summaries
-        it._pure = self.it._pure
+        it.helpers = True
+        self._share(it)
         assume = it.assume_for(callee, which) if which else None
         hole = it._default_hole_ev if callee.fn.kind == 'ctxgen' else None
-        paths = it.paths_of(callee, assume, hole)
-        self.it.stats['paths'] += len(paths)
-        self.it.stats['functions'] |= it.stats['functions']
-        self.it.stats['susp_sites'] |= it.stats['susp_sites']
-        for entry in it.unresolved:
-            if entry not in self.it.unresolved:
-                self.it.unresolved.append(entry)
-        return paths
+        return it.paths_of(callee, assume, hole, which)
 
     def stats(self) -> dict:
         st = self.it.stats
@@ -151,3 +172,19 @@ def key_truth(event: Event) -> Optional[bool]:
 def tested(event: Event, key, truth: bool) -> bool:
     return event.kind in ('test', 'assert') and event.data.get('key') == key \
         and key_truth(event) is truth
+
+
+def event_callees(event: Event) -> list:
+    """resolved usim callees of a call / suspension / helper-enter event"""
+    if event.kind == 'enter':
+        return [event.data['callee']]
+    return list(event.data.get('callees') or ())
+
+
+def invoked(event: Event, name: str, cls_qn: str = None) -> bool:
+    """the function is really invoked here: a completed call or an inlined helper entry"""
+    if not is_call_to(event, name, cls_qn):
+        return False
+    if event.kind == 'enter':
+        return True
+    return event.data.get('exit', 'normal') == 'normal'
